@@ -5,7 +5,7 @@ From Coq Require Import ExtrOcamlBasic ZArith NArith List FMapPositive.
 From Clemens Require Import Base.Res Base.Word Base.Bytes Search.Time Search.TT.
 From Clemens Require Import Pos.Types Att.Attacks Pos.Position Pos.Fen.
 From Clemens Require Import Eval.Eval Search.Ordering Search.Negamax.
-From Clemens Require Import Uci.ParseGo Uci.Input.
+From Clemens Require Import Uci.ParseGo Uci.Input Uci.Game.
 From Clemens Require Rules.Fide Rules.SpecFen.
 From ClemensGen Require Import GoConsts.
 
@@ -61,6 +61,7 @@ Definition m_init_sst (t : tt_state) (c : ecache) (hist : list N) (cancel : opti
      s_counter := PositiveMap.empty _; s_hist := hist; s_pv := nil; s_out := nil; s_polls := 0; s_cancel := cancel |}.
 Definition m_tt_init : tt_state := tt_init (N.to_nat tt_bucketSize).
 
+Definition m_new_position_cmd := new_position_cmd go_keys unicode_digit_tbl se_history_size.
 Definition m_handle_line := handle_line validFirstInputToken.
 Definition m_prepare_input := prepare_input validFirstInputToken.
 
@@ -79,7 +80,7 @@ Extraction "clemens_model.ml"
   rook_attacks bishop_attacks queen_attacks rook_walk bishop_walk rook_mask bishop_mask
   knight_attacks king_attacks pawn_attacks pushes_by_square all_subsets magic_index
   popcount lsb bits
-  parse_go parse_go_unrepaired event_text simple_token m_handle_line m_prepare_input
+  m_new_position_cmd parse_go parse_go_unrepaired event_text simple_token m_handle_line m_prepare_input
   m_score_moves sort_index visit_order m_search m_search_root m_negamax m_quiescence m_init_sst m_tt_init
   m_eval_raw m_eval_parts m_is_draw m_eval_cached m_eval_cached_unrepaired m_see m_contempt m_is_endgame
   Rules.SpecFen.read_fen Rules.SpecFen.show_fen Rules.SpecFen.show_move Rules.SpecFen.read_move
